@@ -830,9 +830,11 @@ func leadsToErrorReturn(x *Ctx, cond *ssa.BinOp, when bool) bool {
 // loopDigitBound: the loop of the accumulator phi exits when (cursor - start) == N; returns N or -1.
 func (x *Ctx) loopDigitBound(acc *ssa.Phi) int {
 	blk := acc.Block()
-	// search the loop body (blocks dominated by the header) for `sub == N` leading out of the loop
+	inLoop := func(b *ssa.BasicBlock) bool { return blk.Dominates(b) && (b == blk || canReach(b, blk)) }
+	// a test inside the loop, `cursor - start == N` with the cursor a loop-carried variable advanced by one per trip
+	// and start fixed before the loop, whose true edge leaves the loop
 	for _, b := range acc.Parent().Blocks {
-		if !blk.Dominates(b) {
+		if !inLoop(b) {
 			continue
 		}
 		iff, ok := b.Instrs[len(b.Instrs)-1].(*ssa.If)
@@ -851,8 +853,36 @@ func (x *Ctx) loopDigitBound(acc *ssa.Phi) int {
 		if !okc || !isSub || sub.Op != token.SUB {
 			continue
 		}
-		// true edge must leave the loop (not dominated by header... or not reaching back): approximate by "true successor does not reach the header without passing it"
-		if !blockReaches(b.Succs[0], blk, b.Succs[0].Instrs[0], blk.Instrs[0]) || !blk.Dominates(b.Succs[0]) {
+		cur, isPhi := sub.X.(*ssa.Phi)
+		if !isPhi || cur.Block() != blk {
+			continue
+		}
+		stepsByOne := false
+		for _, e := range cur.Edges {
+			if add, ok := e.(*ssa.BinOp); ok && add.Op == token.ADD && add.X == ssa.Value(cur) {
+				if k, ok := constBig(add.Y); ok && k.Int64() == 1 {
+					stepsByOne = true
+				}
+			}
+		}
+		if !stepsByOne {
+			continue
+		}
+		// start: defined outside the loop
+		if ins, ok := sub.Y.(ssa.Instruction); ok && inLoop(ins.Block()) {
+			continue
+		}
+		// the cursor's entry value must be that start (the count begins at 0)
+		entryIsStart := false
+		for i, e := range cur.Edges {
+			if !inLoop(blk.Preds[i]) && e == sub.Y {
+				entryIsStart = true
+			}
+		}
+		if !entryIsStart {
+			continue
+		}
+		if !inLoop(b.Succs[0]) {
 			return int(c.Int64())
 		}
 	}
